@@ -1,6 +1,7 @@
 package driver
 
 import (
+	"math"
 	"os"
 
 	"github.com/flowmatters/openwater-core/data"
@@ -60,6 +61,7 @@ type cellCase struct {
 	Mixed                bool // cells differ in state-vector width (zero-padded rows)
 	NearEqual            bool // sibling whose parameters differ from its twin's by a few parts in 10^9
 	WidestFirst          bool // cell 0 has the widest state vector (what InitialiseStates supports)
+	TinyInputs           bool // zeros replaced by -0, denormals and tiny positive values
 	ForeignX4            bool // GR4J states produced under another X4 (store lengths differ from the parameter's)
 	own                  []int
 	cols                 [][]float64
@@ -102,6 +104,18 @@ func drawCellCase(w *simrt.Tape, maxCells, maxT int) *cellCase {
 			if snapCoincidences(w, c.Model, c.desc, c.cols[b%c.P], c.MaxDim, blk) {
 				c.Snapped = true
 			}
+		}
+		if w.Choose(10) == 9 {
+			// zeros of either sign and values next to zero (the tail of a recession, a denormal) where
+			// the series has zeros: all of them valid "nothing" values
+			for _, ser := range blk {
+				for t, v := range ser {
+					if v == 0 {
+						ser[t] = []float64{0, math.Copysign(0, -1), 1e-9, 5e-324, 1e-12}[w.Choose(5)]
+					}
+				}
+			}
+			c.TinyInputs = true
 		}
 		c.inBlocks = append(c.inBlocks, blk)
 	}
@@ -189,6 +203,7 @@ func engineCells(rc *RunCtx) *Outcome {
 	reparam := rc.W.Bool(20)
 	windowed := reparam && !c.CPar && rc.W.Bool(50)
 	redim := reparam && rc.W.Bool(40)
+	windowedIn := !c.CIn && c.T > 0 && rc.W.Choose(8) == 7
 	var altCols [][]float64
 	if reparam {
 		for j := 0; j < c.P; j++ {
@@ -226,7 +241,22 @@ func engineCells(rc *RunCtx) *Outcome {
 				copy(iv[(b*nIn+x)*c.T:], c.inBlocks[b][x])
 			}
 		}
-		inputs := mk3(c.CIn, c.I, nIn, c.T, iv)
+		var inputs data.ND3Float64
+		if windowedIn {
+			// the inputs are a window of a wider array (two spare timesteps in front, one behind)
+			wide := mk3(false, c.I, nIn, c.T+3, nil)
+			inputs = wide.Slice([]int{0, 0, 2}, []int{c.I, nIn, c.T}, nil).(data.ND3Float64)
+			for b := 0; b < c.I; b++ {
+				for x := 0; x < nIn; x++ {
+					for t := 0; t < c.T; t++ {
+						inputs.Set3(b, x, t, iv[(b*nIn+x)*c.T+t])
+					}
+				}
+			}
+			o.probe("inputs_are_a_window_of_a_wider_array")
+		} else {
+			inputs = mk3(c.CIn, c.I, nIn, c.T, iv)
+		}
 		sv := make([]float64, 0, c.N*width)
 		for i := 0; i < c.N; i++ {
 			sv = append(sv, c.stateRows[i]...)
